@@ -13,7 +13,7 @@ from mc.core import Judgement, Recorder
 PROPERTY = "C19"
 RULE = (
     "E3 explicit-state BFS over real PluginManager objects against an ordered-list reference model. Universe: synthetic "
-    "plug-ins X{m1,m2}, Y{m2,m3}, Z{m1, allows_discovery=False}; names a/A/b/c; transitions add_plugin(name, plugin, "
+    "plug-ins X{m1,m2}, Y{m2,m3,M4 (case-sensitive)}, Z{m1, allows_discovery=False}; names a/A/b/c; transitions add_plugin(name, plugin, "
     "prioritize in {F,T}) on manager 1 (or 1 and 2); state = tuple(plugins(type)) per manager (fully observable, so merging "
     "equal states is sound); BFS to closure; in EVERY state ALL queries (bare m1,m2,m3,nope,slsqp,default; explicit a/m1, "
     "A/m2, b/m3, c/m1, zz/m1, scipy/slsqp, SciPy/SLSQP, external/slsqp, external/m1) are evaluated through get_plugin and "
@@ -24,7 +24,8 @@ RULE = (
 )
 ASSUMPTIONS = [
     "state of a manager = the ordered (name, plug-in) list returned by plugins(); the no-merge run guards against hidden state",
-    "method-name case handling inside plug-ins is outside the statement (synthetic plug-ins match exactly)",
+    "method-name case handling inside plug-ins is outside the statement (synthetic plug-ins match exactly); the manager "
+    "is expected to hand the requested method to is_supported unchanged",
 ]
 BOUNDS = {
     "quick": "optimizer: closure with 1 manager (full universe) and 2 managers (names a/A/b, plug-ins X/Z); other 5 types: reduced closure; no-merge depth 3",
@@ -42,8 +43,10 @@ BUILTIN_QUERIES = {
     "plan_handler": [("tracker", "default"), ("default/store", "default")],
     "plan_step": [("optimizer", "default"), ("DEFAULT/evaluator", "default")],
 }
-SYN_QUERIES = ["m1", "m2", "m3", "nope", "a/m1", "A/m2", "b/m3", "c/m1", "zz/m1", "a/nope", "B/m2"]
-SUPPORTS = {"X": {"m1", "m2"}, "Y": {"m2", "m3"}, "Z": {"m1"}}
+SYN_QUERIES = ["m1", "m2", "m3", "nope", "a/m1", "A/m2", "b/m3", "c/m1", "zz/m1", "a/nope", "B/m2", "M4", "m4", "a/M4", "B/M4", "b/m4"]
+# Y is case-sensitive about its method M4: the manager must ask a plug-in about the method as requested (only plug-in
+# NAMES are case-insensitive)
+SUPPORTS = {"X": {"m1", "m2"}, "Y": {"m2", "m3", "M4"}, "Z": {"m1"}}
 DISCOVER = {"X": True, "Y": True, "Z": False}
 _PLUGINS: dict[str, Any] = {}
 
